@@ -180,10 +180,12 @@ def _q(ex, a, b, fn, forall):
     ex.fresh_count += 1
     j = z3.Int(f'j!{ex.fresh_count}')
     ex.pure += 1
+    ex.in_quantifier += 1
     try:
         body = ex.truthy(ex.call(fn, [VInt(j)], {}))
     finally:
         ex.pure -= 1
+        ex.in_quantifier -= 1
     rng = z3.And(ta <= j, j < tb)
     return VBool(z3.ForAll([j], z3.Implies(rng, body)) if forall else z3.Exists([j], z3.And(rng, body)))
 
@@ -203,10 +205,12 @@ def _q2(ex, a, b, fn):
     ex.fresh_count += 1
     i, j = z3.Int(f'i!{ex.fresh_count}'), z3.Int(f'j!{ex.fresh_count}')
     ex.pure += 1
+    ex.in_quantifier += 1
     try:
         body = ex.truthy(ex.call(fn, [VInt(i), VInt(j)], {}))
     finally:
         ex.pure -= 1
+        ex.in_quantifier -= 1
     return VBool(z3.ForAll([i, j], z3.Implies(z3.And(ta <= i, i < j, j < tb), body)))
 
 
